@@ -185,6 +185,21 @@ CHECKS["C14"] = (
     "DESIGN.md 3/C14",
 )
 
+CHECKS["C17"] = (
+    "model_checking",
+    "exhaustive enumeration of a bounded family of strict record specifications x all small conforming tables x both directions x Pandas and Polars; inverse round trip, reference pivot / un-pivot, composition law over all composable pairs",
+    "48 (thorough 96) strict record specifications (1-2 control-table key columns, 2-3 block rows, 1-2 value columns, record keys [], [g], [g,h], two cell-name arrangements; thorough: also key columns listed after value columns) x every record-keyed table with <= 2 (3) records whose cells follow the patterns all-null / constant / all-distinct / one-null: rows->blocks must equal the reference un-pivot, inverse() must undo it, blocks->rows must return the original rows and its inverse() the blocks, on Pandas and on Polars (which must agree; a Polars exception on a valid layout is reported); for all composable pairs of maps over the same record keys and cell names, a >> b and b.compose(a) must equal applying a then b.",
+    "Reference pivot / un-pivot in mc/refmodel.py; row order of results is not compared.",
+    "DESIGN.md 3/C17",
+)
+CHECKS["C21"] = (
+    "model_checking",
+    "exhaustive enumeration of all valid small inputs per solution helper, each helper pipeline evaluated on Pandas and SQLite against an independent reference computation",
+    "rank_to_average: all multisets of <= 4 (thorough 5) rows over partition {a,b} x value {1,2,3}, with and without partition_by, against the mean 1-based position of the tie group; last_observed_carried_forward: all tables of <= 4 (5) rows over 5 distinct (partition, time) keys x values {NULL,1,2}, with and without partition_by, against a scan; replicate_rows_query: max_count 1..16 (1..64) x every count 1..max_count on one- and two-row tables (and the empty table), against explicit replication numbered from 0; def_multi_column_map: all 81 mapping tables over a 2x2 (column, value) grid x keyed tables with mapped, unmapped and missing values x coalesce_value {None, 0} x cols_to_map_back {None, renamed}, against dictionary lookup; each on Pandas and on SQLite.",
+    "Reference computations in mc/props/c21.py are written from the helper docstrings.",
+    "DESIGN.md 3/C21",
+)
+
 NOT_YET = "check not built yet in this session (work in progress, see DESIGN.md section 3)"
 
 NOT_APPLICABLE = {
